@@ -2,6 +2,8 @@ package core
 
 import (
 	"fmt"
+	"os"
+	"runtime"
 	"sort"
 	"strings"
 
@@ -35,6 +37,11 @@ func sameInts(a, b []int) bool {
 // Explore runs the harness: determinism self-check first, then the exploration; every distinct bad outcome
 // is replayed 5 times from its recorded choice sequence before it is reported.
 func Explore(r *Result, sp SchedSpec) *explore.Stats {
+	// exactly one goroutine of a controlled execution runs at any time: keeping the hand-offs on one OS
+	// thread makes them several times cheaper (the value the implementation sees is the vsched seam's)
+	if os.Getenv("VERIF_SCHED_MP") == "" {
+		defer runtime.GOMAXPROCS(runtime.GOMAXPROCS(1))
+	}
 	judge := sp.Judge
 	if judge == nil {
 		judge = func(o string) string {
